@@ -186,7 +186,15 @@ class FrameScan(ast.NodeVisitor):
             if self.derived(n.args[0], tainted):
                 hit = n
         if hit is not None:
-            self.hits.append((self.modname, qual, _norm(hit), getattr(hit, "lineno", 0)))
+            tgt = hit.targets[0] if isinstance(hit, ast.Assign) else hit.target if isinstance(hit, ast.AugAssign) else hit.targets[0] if isinstance(hit, ast.Delete) else \
+                (hit.func.value if isinstance(hit.func, ast.Attribute) else hit.args[0])
+            if isinstance(hit, (ast.Assign, ast.AugAssign, ast.Delete)) and isinstance(tgt, (ast.Tuple, ast.List)):
+                tgt = next((e for e in tgt.elts if self.base_tainted(e, tainted)), tgt)
+            attr = tgt.attr if isinstance(tgt, ast.Attribute) and isinstance(hit, (ast.Assign, ast.AugAssign, ast.Delete)) else None
+            root = tgt
+            while isinstance(root, (ast.Attribute, ast.Subscript, ast.Call)):
+                root = root.value if not isinstance(root, ast.Call) else (root.func.value if isinstance(root.func, ast.Attribute) else root.func)
+            self.hits.append((self.modname, qual, _norm(hit), getattr(hit, "lineno", 0), root.id if isinstance(root, ast.Name) else "?", attr))
 
 
 class TrapDict(dict):
@@ -224,15 +232,12 @@ def build(run):
         if hits is None:
             return undecided(nfunc)
         import json
-        reviewed = {k: {"why": v} for k, v in ALLOW.items()}
-        p = os.path.join(os.path.dirname(os.path.abspath(__file__)), "c27_allow.json")
-        for ent in json.load(open(p)):
-            reviewed[(ent["module"], ent["function"], ent["statement"])] = ent
+        entries = json.load(open(os.path.join(os.path.dirname(os.path.abspath(__file__)), "c27_allow.json")))
         unknown, broken = [], []
         for h in hits:
-            ent = reviewed.get((h[0], h[1], h[2]))
+            ent = next((e for e in entries if e["module"] == h[0] and e["function"] == h[1] and e["root"] == h[4] and (e.get("attr") is None or e.get("attr") == h[5])), None)
             if ent is None:
-                unknown.append(h)
+                unknown.append(h[:4])
                 continue
             mod = importlib.import_module(h[0])
             tree = ast.parse(inspect.getsource(mod))
@@ -247,7 +252,7 @@ def build(run):
                     if isinstance(call, ast.Call) and isinstance(call.func, ast.Name) and call.func.id == fn and len(call.args) >= 2:
                         a = call.args[1]
                         fresh = isinstance(a, ast.List) or (isinstance(a, ast.Call) and isinstance(a.func, ast.Name) and a.func.id == fn) or (
-                            isinstance(a, ast.Name) and a.id == "factors")
+                            isinstance(a, ast.Name) and a.id == ent["root"])
                         if not fresh:
                             broken.append((h, f"a call passes `{ast.unparse(a)}` as the accumulator of {fn}"))
         if unknown or broken:
